@@ -207,7 +207,7 @@ def _next_loop(cx, bb, it, ity, item, make_body, result_rv, tag):
     unreachable = cx.new_block([], {"t": "unreachable", "sp": sp})
     test = cx.new_block(
         [_assign(_pl(d, cx.isize), {"r": "discr", "pl": _pl(o, oty)}, sp)],
-        {"t": "switch", "on": {"m": _pl(d, cx.isize)}, "targets": [[0, done], [1, entry]], "otherwise": unreachable, "sp": sp, "desugared": tag, "desugared_adt": OPT},
+        {"t": "switch", "on": {"m": _pl(d, cx.isize)}, "targets": [[0, done], [1, entry]], "otherwise": unreachable, "sp": sp, "desugared": tag, "desugared_adt": OPT, "desugared_dest": _pl(o, oty)},
     )
     nxt = {"t": "call", "f": _next_fn(cx, ity), "args": [{"m": _pl(r, rty)}], "dest": _pl(o, oty), "to": test, "sp": [sp[0], "Desugaring(ForLoop)"] if isinstance(sp, list) and sp else sp}
     if t.get("unwind") is not None:
@@ -259,6 +259,56 @@ def _desugar_for_each(cx, bb):
     return _next_loop(cx, bb, ipl["l"], ipl["t"], callee["locals"][2]["ty"], body, {"r": "agg", "kind": "tuple", "fields": []}, "for_each")
 
 
+def _desugar_try_for_each(cx, bb):
+    """it.try_for_each(|x| body) with a closure literal returning Result<(), E>:
+         loop { match it.next() { None => break Ok(()), Some(x) => match body(x) { Ok(()) => continue, e => break e } } }
+    (the documented short-circuiting of try_for_each)"""
+    t = cx.blocks[bb]["term"]
+    args = t["args"]
+    if len(args) != 2 or t["dest"]["p"]:
+        return False
+    ipl = args[0].get("m")
+    if ipl is None or ipl["p"]:
+        return False
+    # the receiver is `&mut it` or the iterator by value (Iterator for &mut I): accept a by-value iterator local only
+    closure = _closure_def(cx.body, args[1])
+    if closure is None:
+        return False
+    callee = cx.by_key.get(closure[0])
+    if callee is None or callee.get("arg_count") != 2:
+        return False
+    rty = callee["locals"][0]["ty"]
+    rt = cx.types[rty]
+    if rt.get("path") != RES or len(rt.get("args", [])) < 2 or cx.types[rt["args"][0]]["s"] != "()":
+        return False
+    it, ity = ipl["l"], ipl["t"]
+    if cx.types[ity].get("k") == "ref":
+        # `try_for_each` takes `&mut self`: the receiver is `&mut it` for an iterator local of this body
+        rdefs = [st for b_ in cx.blocks for st in b_["st"] if st["s"] == "assign" and st["pl"]["l"] == it and not st["pl"]["p"]]
+        if len(rdefs) != 1 or rdefs[0]["rv"]["r"] != "ref" or rdefs[0]["rv"]["pl"]["p"]:
+            return False
+        it, ity = rdefs[0]["rv"]["pl"]["l"], rdefs[0]["rv"]["pl"].get("t")
+        if ity is None:
+            ity = cx.body["locals"][it]["ty"]
+    sp, D, cont = t["sp"], t["dest"], t["to"]
+    unit = rt["args"][0]
+
+    def body(x, back):
+        chk = cx.new_block([], {"t": "goto", "to": back, "sp": sp})
+        res = _inline_closure(cx, closure[0], closure[1], [_use(x)], chk, sp)
+        if res is None:
+            return None
+        entry, lo, _rty = res
+        d = cx.new_local(cx.isize)
+        leave = cx.new_block([_assign(copy.deepcopy(D), _use({"m": _pl(lo, rty)}), sp)], {"t": "goto", "to": cont, "sp": sp})
+        cx.blocks[chk]["st"].append(_assign(_pl(d, cx.isize), {"r": "discr", "pl": _pl(lo, rty)}, sp))
+        cx.blocks[chk]["term"] = {"t": "switch", "on": {"m": _pl(d, cx.isize)}, "targets": [[0, back]], "otherwise": leave, "sp": sp, "desugared": "try_for_each", "desugared_adt": RES, "desugared_dest": _pl(lo, rty)}
+        return entry
+
+    ok_unit = _agg(RES, "Ok", 0, [{"k": {"ty": unit, "s": "()"}}])
+    return _next_loop(cx, bb, it, ity, callee["locals"][2]["ty"], body, ok_unit, "try_for_each")
+
+
 def _desugar_extend(cx, bb):
     """v.extend(it)  ==  for x in it { v.push(x) }   for a Vec and an iterator adaptor of std::iter (the documented
     meaning of `Extend for Vec`; the reservation hint is not modelled)"""
@@ -270,6 +320,28 @@ def _desugar_extend(cx, bb):
     if vpl is None or vpl["p"] or ipl is None or ipl["p"]:
         return False
     vref = cx.types[vpl["t"]]
+    if vref.get("k") == "ref" and cx.types[ipl["t"]].get("path") == OPT and cx.types[vref["t"]].get("path") == "std::vec::Vec":
+        # v.extend(opt) for an Option: `if let Some(x) = opt { v.push(x) }` (Option's IntoIterator yields at most once)
+        sp, D, cont = t["sp"], t["dest"], t["to"]
+        vty = vref["t"]
+        vt = cx.types[vty]
+        item = vt["args"][0]
+        unit = next((i for i, x in enumerate(cx.types) if x["s"] == "()"), None)
+        if unit is None:
+            return False
+        done = cx.new_block([_assign(copy.deepcopy(D), {"r": "agg", "kind": "tuple", "fields": []}, sp)], {"t": "goto", "to": cont, "sp": sp})
+        u = cx.new_local(unit)
+        f = {"key": "alloc::vec::Vec::push", "path": "std::vec::Vec::<T, A>::push", "full": "%s::push" % vt["s"], "name": "push", "local": False, "args": list(vt.get("args", [])), "self_ty": vty}
+        call = {"t": "call", "f": f, "args": [copy.deepcopy(args[0]), {"m": _pl(ipl["l"], item, [{"d": 1, "n": "Some"}, {"f": 0, "n": "0", "t": item}])}], "dest": _pl(u, unit), "to": done, "sp": sp}
+        if t.get("unwind") is not None:
+            call["unwind"] = t["unwind"]
+        some = cx.new_block([], call)
+        d = cx.new_local(cx.isize)
+        unreachable = cx.new_block([], {"t": "unreachable", "sp": sp})
+        blk = cx.blocks[bb]
+        blk["st"].append(_assign(_pl(d, cx.isize), {"r": "discr", "pl": _pl(ipl["l"], ipl["t"])}, sp))
+        blk["term"] = {"t": "switch", "on": {"m": _pl(d, cx.isize)}, "targets": [[0, done], [1, some]], "otherwise": unreachable, "sp": sp, "desugared": "extend", "desugared_adt": OPT, "desugared_dest": copy.deepcopy(D)}
+        return True
     if vref.get("k") != "ref" or not cx.types[ipl["t"]]["s"].startswith("std::iter::"):
         return False
     vty = vref["t"]
@@ -395,6 +467,8 @@ def desugar_call(cx, bb):
         return _desugar_for_each(cx, bb)
     if path == "std::iter::Extend::extend":
         return _desugar_extend(cx, bb)
+    if path == "std::iter::Iterator::try_for_each" and f.get("trait") == "std::iter::Iterator":
+        return _desugar_try_for_each(cx, bb)
     if path == "std::iter::Iterator::next" and f.get("trait") == "std::iter::Iterator" and not t.get("adaptor_tried"):
         t["adaptor_tried"] = True
         return _desugar_adaptor_next(cx, bb)
